@@ -100,6 +100,46 @@ theorem C02_dedup_never_removes (l : List Nat) (h : l.Nodup) (c : Nat) : c ∈ n
   newLeft_mem l h c
 
 
+/-- **C02 (every unacknowledged chunk can be delivered — no wedge).** From every state in which the
+client has not finished, whatever faults and interleavings led to it, there is a continuation — the one
+a well-behaved upstream allows — after which every chunk the client held unresolved is confirmed and
+nothing is left unresolved.  PARTIAL with respect to the property's liveness clause: this is
+possibility from every reachable state (no state is a trap), not inevitability under a fairness
+assumption on the real scheduler. -/
+theorem C02_can_always_deliver (s : St) (hf : s.finished = false) (hok : ∀ x, s.sess = some x → SessOK s x) :
+    ∃ acts s', run s acts = some s' ∧ (∀ c ∈ inflight s, c ∈ s'.confirmed) ∧ inflight s' = [] ∧
+      s'.queue = s.queue ∧ s'.handed = s.handed ∧ s'.taken = s.taken ∧ s'.finished = false := by
+  cases hs : s.sess with
+  | none =>
+    obtain ⟨s', a, b, c, d, e, f, g, _⟩ := after_connect s hs hf
+    refine ⟨_, s', a, ?_, c, d, e, f, g⟩
+    intro x hx
+    rw [b]
+    simp only [inflight, hs, List.append_nil] at hx
+    exact List.mem_append_right _ hx
+  | some x =>
+    obtain ⟨t, t1, t2, t3, t4, t5, t6, t7, t8⟩ := close_session s x hs (hok x hs)
+    obtain ⟨s', a, b, c, d, e, f, g, _⟩ := after_connect t t2 (by rw [t5]; exact hf)
+    refine ⟨closeSess x ++ ([Act.connectOk] ++ (t.left.flatMap (fun _ => deliverOne) ++ [Act.recoveryDone])), s', ?_, ?_, c, by rw [d, t6], by rw [e, t8], by rw [f, t7], g⟩
+    · rw [run_append, t1]; exact a
+    · intro y hy
+      rw [b]
+      exact List.mem_append_right _ ((t3 y).mpr hy)
+
+/-- **C02 (retransmitted, oldest first, until acknowledged — as possibility).** Every reachable state in
+which the client has not finished has a continuation in which every chunk it holds unresolved is
+retransmitted and acknowledged; in that continuation, as in every run, the chunks go out on each
+connection in strictly increasing id order. -/
+theorem C02_retransmitted_until_acked (q : List Nat) (hq : q.Pairwise (· < ·)) (acts : List Act) (s : St)
+    (h : run (init q) acts = some s) (hf : s.finished = false) :
+    ∃ more s', run (init q) (acts ++ more) = some s' ∧ (∀ c ∈ inflight s, c ∈ s'.confirmed) ∧
+      inflight s' = [] ∧ (∀ k, (sentOn k s'.hist).Pairwise (· < ·)) := by
+  have hn : q.Nodup := hq.imp (fun h => Nat.ne_of_lt h)
+  have hi := run_inv _ _ acts h (init_inv q hn)
+  obtain ⟨more, s', a, b, c, _⟩ := C02_can_always_deliver s hf hi.sess
+  have hr : run (init q) (acts ++ more) = some s' := by rw [run_append, h]; exact a
+  exact ⟨more, s', hr, b, c, (C02_resend_order q hq _ s' hr).1⟩
+
 /-! ### the monitor: an accepted trace of the real client inherits the theorems -/
 
 theorem monitor_sound (q taken : List Nat) (obs : List Obs) (h : monitor q taken obs = none) :
